@@ -45,8 +45,6 @@ def required_cells(tier):
         req["twins:" + kk] = 15 if q else 300
     for rk in ("None", "P", "S", "PG"):
         req["pair-result:" + rk] = 20 if q else 400
-    for rk in ("PH", "L", "PL", "H"):
-        req["pair-result:" + rk] = 2 if q else 40
     req["history:related-questions-on-one-carrier"] = 200 if q else 4000
     req["history:returned-object-moved-by-caller"] = 100
     req["move-original"] = 100
